@@ -1,7 +1,7 @@
 #!/usr/bin/env python3
 """Re-run the own-property quick check against every kept seeded change.
 
-  tools/reverify.py [--jobs N] [--only C07,C12] [--out /tmp/reverify.json]
+  tools/reverify.py [--jobs N] [--only C07,C12] [--min 31] [--out /tmp/reverify.json]
 
 For each /verif/seeded/<name>/ a scratch worktree of /repo HEAD is created under /tmp,
 the patch applied, the quick check of the seed's property (C07-seed6: C06, the one it
@@ -70,6 +70,9 @@ def main():
     dirs = sorted(glob.glob(os.path.join(VERIF, "seeded", "*/")), key=key)
     if only:
         dirs = [d for d in dirs if os.path.basename(d.rstrip("/")).split("-")[0] in only]
+    if "--min" in a:
+        lo = int(a[a.index("--min") + 1])
+        dirs = [d for d in dirs if key(d)[1] >= lo]
     results = {}
     with ThreadPoolExecutor(jobs) as ex:
         for name, prop, status, res in ex.map(one, dirs):
